@@ -81,7 +81,7 @@ structure TablesHyp (FN : List String) (W0 : AMap Width) (s1 : Step1) (constants
   s1clean : s1.errors = []
   cok : ConstOK constants
   ckeys : ∀ k v, constants.get? k = some v → k ∈ s1.constantsRaw.keys
-  s3f : S3Facts s1.declared s3 {}
+  s3f : S3Facts s1.declared (fun n => s1.assignments.contains n = false) s3 {}
   fnShape : ∀ n ∈ FN, secondIsUnderscore n = false ∧ isCtlName n = false
 
 def finalWires (s1 : Step1) (constants : AMap WireValue) (s3 : Step3) : AMap Width :=
